@@ -2,7 +2,10 @@ def setup(chk):
     chk.add_tu('C05.cpp')
     chk.add_tu('C05x.cpp')
     if chk.tier == 'thorough':
-        chk.add_tu('C05t.cpp')
+        import glob, os
+        here = os.path.dirname(os.path.dirname(os.path.abspath(__file__)))
+        for f in sorted(glob.glob(os.path.join(here, 'h/C05t*.cpp'))):
+            chk.add_tu(os.path.basename(f))
     chk.extra_evidence.update({'bounds_text': 'every core-pool type, every value (reference encoding, proved byte-identical to the library encoder in C03), every cut position k < length (symbolic), bytes behind the cut arbitrary; readers Buffer, Pedantic, Stream(model), Fd(model), Bounded over Pedantic/Buffer/Stream (quick: 2 readers per type by rotation; thorough: all); table part: two-entry table with 0..3 padding bytes per entry read by definitions that lack / have deleted the first or the last entry (cut inside skipped entries and inside padding)',
       'outside_bounds': ['heap containers', 'real std::istream / kernel fds (models, validated natively)'],
       'assumes': ['stream model: seeking outside [0,size] fails with failbit (stringbuf semantics); fd model: read returns 0 at end of file']})
